@@ -4,5 +4,6 @@ CONSTANTS Files <- MCFiles  Outcome <- MCOutcome  Threads <- MCThreads3
 INVARIANT ExactlyOnce
 INVARIANT Union
 INVARIANT PerFileOrder
+INVARIANT Tally
 PROPERTY Terminates
 CHECK_DEADLOCK FALSE
